@@ -26,7 +26,7 @@ pub static PROP: PropDef = PropDef {
            Oracle: u64 arithmetic - multiply == floor((2ca+V)/(2V)); divide in {floor,ceil}(cV/a) saturated at V; a=0 -> 0; alpha unchanged; floats: c*a \
            exactly, c/a within 2 ulp. Every (layout, pixel, entry point, back-end) evaluation of a pair is one distinct non-trivial case.",
     assumptions: &[
-        "float pairs are finite; a float quotient that overflows or whose reciprocal overflows (denormal alpha) is outside the checked domain and counted",
+        "float pairs are finite; pairs whose quotient overflows f32 are outside the checked domain and counted",
     ],
     exhaustive: |_| true,
 };
@@ -737,18 +737,13 @@ fn check_floats(t: &mut Tape, _ctx: &Ctx) -> Outcome {
                     continue;
                 }
                 let want = c / a;
-                let recip = 1.0f32 / a;
-                if !want.is_finite() || !recip.is_finite() || (c * recip).is_infinite() {
+                if !want.is_finite() {
+                    // the quotient itself overflows f32
                     out_of_domain += 1;
                     continue;
                 }
-                // a reciprocal in (or next to) the denormal range has lost its relative precision
-                if recip.abs() < f32::MIN_POSITIVE * 4.0 {
-                    out_of_domain += 1;
-                    continue;
-                }
-                // near the denormal range the quotient itself has no relative precision left
-                if want != 0.0 && want.abs() < f32::MIN_POSITIVE * 8.0 {
+                // next to the denormal range the quotient has no relative precision left: absolute bound
+                if want.abs() < f32::MIN_POSITIVE * 8.0 {
                     if (got as f64 - want as f64).abs() > 8.0 * f32::from_bits(1) as f64 {
                         o.fail(format!("divide: colour {:?} alpha {:?} -> {:?}, expected about {:?}", c, a, got, want));
                         return o;
@@ -787,7 +782,7 @@ fn check_floats(t: &mut Tape, _ctx: &Ctx) -> Outcome {
             }
         }
     }
-    o.label_n("float:out-of-domain(overflowing quotient or reciprocal)", out_of_domain);
+    o.label_n("float:out-of-domain(overflowing quotient)", out_of_domain);
     o.label(format!("float:{}:{}", img::pt_name(pt), img::ext_name(ext)));
     o.nontrivial_key(crate::tape::fnv(
         format!("f|{}|{}|{}|{:?}|{}|{:x}", img::pt_name(pt), img::ext_name(ext), divide, variant, w, seed).as_bytes(),
